@@ -62,7 +62,8 @@ func term(in Input, o Obs) string {
 	return lib.App("mk_case",
 		lib.ListOf(d.Tree, gNode), dbn, lib.ListOf(d.Fields, gFDesc), lib.ListOf(d.Fields, func(f *FDesc) string { return lib.Bool(f.HPK) }), lib.Str(d.Prio), lib.Bool(d.PrioHasDef),
 		lib.Bool(!in.NoRet), lib.Bool(!in.Fwd), gOp(in), lib.Z(o.Base), gZ(timeNs(nowPinned)),
-		gRecs(in.Recs), lib.ListOf(d.Extra, func(f *FDesc) string { return gKind(f.Kind) }), gRecs(xrecs(in)),
+		gRecs(in.Recs), lib.ListOf(d.Extra, func(f *FDesc) string { return gKind(f.Kind) }),
+		lib.ListOf(d.Extra, func(f *FDesc) string { return lib.ListOf(f.Path, lib.Str) }), gRecs(o.XBefore),
 		lib.Bool(o.Err != ""), gRecs(o.After), gRows(o.Rows), lib.Z(o.RowCount),
 		gRecs(o.Find), gRecs(o.XFind), gRecs(o.First), gRecs(o.Take), gRecs(o.ByKey), gRows(o.MMap), gRows(o.TMap), lib.Z(o.NMaps),
 		lib.Z(int64(len(o.ReadErrs))))
@@ -139,6 +140,7 @@ func main() {
 		nontriv := len(in.Recs) >= 2 && o.Err == ""
 		out.Add(lib.Case{Term: term(in, o), JSON: map[string]interface{}{"input": in, "observed": o},
 			Sig: sig(in), Kind: kind, Shape: shape(in), Nontriv: nontriv})
+		out.Count("fields_without_own_column", fmt.Sprint(len(descOf(in.Type).Extra)))
 		if isGen(in.Type) {
 			out.Count("type", "generated")
 			out.Count("generated_fields", fmt.Sprint(len(in.Spec)))
